@@ -76,6 +76,21 @@ MISSED_AT_FIRST = {
     'C17-7': 'missed: Store.add_node was only reached through move with one-key paths; a detached subtree is re-attached with add_node and a path of several keys',
     'C18-7': 'missed: every time reached the emitter in one emit; a quarter of the cases split each row over two emits',
     'C19-7': 'missed: event values were truthy; falsy event values added and the declared default made different from the initial value',
+    'C01-8': 'caught by C08 at first, not by C01 (no update named its own updater there): one update of a private accumulator now sets it (reset_at), later ones accumulate again',
+    'C02-8': 'missed: nothing asserted that a timestep answer is used for one evaluation only; oracle asked_for_each_interval (between two update-condition evaluations of a serial process its calculate_timestep is called)',
+    'C04-8': 'caught by C06 at first, not by C04 (patch rebased after D55/D57): the permutation class now has a process whose first-listed port is a glob port wired through a sub-topology',
+    'C05-8': 'same change as C13-8; missed by C05 (no parallel steps, no steps by configuration): every second legacy deriver now overrides is_step() instead of subclassing Step, and a parallel one is observed through its ledger tokens (family parallel_duck)',
+    'C06-8': 'missed (patch rebased): no port carried an explicit _output: False; the topology generator now writes the flag with both values',
+    'C07-8': 'missed: the dynamic class made one update() call; it now runs a caller loop of unforced run_for() calls first (processes wait across call ends while the structure changes)',
+    'C08-8': 'missed: a plain dictionary update and one naming its own updater never met in one batch; dictionary variable with the merge updater reached through two ports, both port orders - which uncovered D57',
+    'C11-8': 'missed: binomial mothers were integers; fractional mother values added',
+    'C12-8': 'missed: steps were always passed as steps and the derived value equalled its default at the initial time; steps may now be listed among the processes, and the derived sum is offset',
+    'C13-8': 'missed: every step was a Step subclass; a step by configuration (is_step() override) listed among the processes, optionally parallel, added to the sched workload',
+    'C14-8': 'missed: one emit per time; rows with an even number of variables now reach the emitter in two emits at one time',
+    'C15-8': 'missed: no parallel processes in C15; family parallel (a _parallel process carrying a schema override, through two entry points, and default_state() of the composite afterwards)',
+    'C16-8': 'missed: the MetaComposer oracle only named a process; overrides configured on a held composer now name processes, steps, nested steps and a step inside a compartment that also holds a process - which uncovered D56',
+    'C17-8': 'missed: assoc_path only wrote scalars; a third of the written values are dictionaries (they replace the dictionary at the path)',
+    'C19-8': 'missed: the timeline always came from the process parameters; entry experiment passes it as a setting of composite_in_experiment (run length = latest event time)',
     'C19-4': 'missed: one update() whose length is a multiple of the timestep; a third of the cases now make 2-4 update() calls that cut ticks short',
 }
 
